@@ -53,6 +53,9 @@ type MapV struct {
 
 type TupleV struct{ E []Value }
 
+// UndefV: a value that does not exist on this path (e.g. callres of a call that did not happen).
+type UndefV struct{}
+
 // FuncV is a function value: either a known function/closure or an opaque id loaded from the heap.
 type FuncV struct {
 	Fn     *ssa.Function
